@@ -281,7 +281,21 @@ def r_feeder(e, R):
     R.check(bool(tgt) and sg.escape_path(sg.entry, startn, use_exc=False) is None and any(startn(n) for n in sg.nodes), "R-FEEDER",
             "Queue._start_thread: creates the thread with loky's feeder as target and starts it on every path", st.short, "Thread(target=Queue._feed, ...).start()",
             "the feeder thread is never started (nothing is ever sent) or runs the stdlib feeder without loky's reducers", e.loc(st, st.node))
-    R.floor("R-FEEDER", 10)
+    # close() of the stdlib Queue ends the feeder by calling the finaliser that _start_thread stored in `self._close`
+    # (it appends the sentinel to the buffer and notifies): without it the feeder thread of every closed queue stays forever
+    def close_fin(n):
+        if not (n.kind == "stmt" and isinstance(n.ast, ast.Assign) and isinstance(n.ast.targets[0], ast.Attribute) and n.ast.targets[0].attr == "_close"
+                and isinstance(n.ast.targets[0].value, ast.Name) and n.ast.targets[0].value.id == st.params[0] and isinstance(n.ast.value, ast.Call)):
+            return False
+        c = n.ast.value
+        return norm(c.func).endswith("Finalize") and len(c.args) >= 3 and norm(c.args[1]).endswith("_finalize_close") and isinstance(c.args[2], (ast.List, ast.Tuple)) \
+            and [norm(x) for x in c.args[2].elts] == [f"{st.params[0]}._buffer", f"{st.params[0]}._notempty"]
+    R.check(sg.escape_path(sg.entry, close_fin, use_exc=False) is None and any(close_fin(n) for n in sg.nodes), "R-FEEDER",
+            "Queue._start_thread: stores the closing finaliser (sentinel to the buffer) that the inherited close() calls", st.short,
+            "self._close = Finalize(self, Queue._finalize_close, [self._buffer, self._notempty])",
+            "close() of the queue no longer tells the feeder thread to quit: one feeder thread (and the pipe it holds) leaks per executor", e.loc(st, st.node))
+    R.trust("stdlib: multiprocessing.queues.Queue.close() calls the finaliser stored in self._close; Queue._finalize_close appends the sentinel and notifies")
+    R.floor("R-FEEDER", 11)
     R.floor("R-PAIR", 4)
 
 
